@@ -803,7 +803,85 @@ fn ledger_final(led: &Led) {
 
 // ================================================================ T-chan (borrowed channel in an Arc)
 
+// ================================================================ T-chan "trap" executions (C10 / C08 under threads)
+
+/// One producer, `m` numbered messages, consumers that are either *quitters* (one budgeted
+/// receive attempt; giving up drops a pending or already notified future, then the thread
+/// leaves) or *stayers* (purely wake-driven receives until the channel closes). Nobody closes
+/// the channel until the last message has been received (its receiver closes), so a wake-up
+/// that is lost on the way - e.g. swallowed by a quitter that was dropped while a sender
+/// notified it - cannot be repaired by later traffic: the execution deadlocks.
+macro_rules! def_t_chan_trap {
+    ($name:ident, $mk:expr, $what:expr) => {
+        fn $name(cfg: &Cfg) {
+            let cap = cfg_get(cfg, "cap", 1) as usize;
+            let nc = 2 + (cfg_get(cfg, "consumers", 2) as usize).min(2);
+            let m = 1 + draw(2);
+            let (tx, rx) = $mk(cap);
+            let got: Arc<Vec<AtomicUsize>> = Arc::new((0..4).map(|_| AtomicUsize::new(0)).collect());
+            let mut hs = Vec::new();
+            {
+                let tx = tx.clone();
+                hs.push(thread::spawn(move || {
+                    for i in 1..=m {
+                        if block_on(tx.send(i)).is_err() && i <= m {
+                            // only the receiver of the last message closes the channel
+                            violation("C11", "send-failed-while-open", format!("{}: send of message {} of {} failed although nobody closed the channel yet", $what, i, m));
+                        }
+                    }
+                }));
+            }
+            for c in 0..nc {
+                let (rx, got) = (rx.clone(), got.clone());
+                hs.push(thread::spawn(move || {
+                    let stayer = c == 0 || draw(2) == 0;
+                    let take = |v: u64| -> bool {
+                        if got[v as usize].fetch_add(1, SeqCst) != 0 {
+                            violation("C08", "delivered-twice", format!("{}: message {} was received twice", $what, v));
+                        }
+                        if v == m {
+                            rx.close();
+                        }
+                        v == m
+                    };
+                    if stayer {
+                        while let Some(v) = block_on(rx.receive()) {
+                            if take(v) {
+                                break;
+                            }
+                        }
+                    } else if let Some(Some(v)) = block_on(budgeted(rx.receive(), draw(3) as u32)) {
+                        take(v);
+                    }
+                }));
+            }
+            drop(tx);
+            drop(rx);
+            for h in hs {
+                h.join().unwrap();
+            }
+            for i in 1..=m {
+                if got[i as usize].load(SeqCst) != 1 {
+                    violation("C08", "accepted-value-lost", format!("{}: message {} of {} was sent but never received although a consumer stayed to the end", $what, i, m));
+                }
+            }
+        }
+    };
+}
+def_t_chan_trap!(
+    t_chan_trap_borrowed,
+    |cap: usize| {
+        let c = Arc::new(GenericChannel::<M, u64, GrowingHeapBuf<u64>>::with_capacity(cap));
+        (c.clone(), c)
+    },
+    "mpmc channel"
+);
+def_t_chan_trap!(t_chan_trap_shared, |cap: usize| sh::generic_channel::<M, u64, GrowingHeapBuf<u64>>(cap), "shared mpmc channel");
+
 fn t_chan(cfg: &Cfg) {
+    if cfg_get(cfg, "trap", 0) != 0 {
+        return t_chan_trap_borrowed(cfg);
+    }
     let np = cfg_get(cfg, "producers", 2) as usize;
     let nc = cfg_get(cfg, "consumers", 2) as usize;
     let items = cfg_get(cfg, "items", 2) as usize;
@@ -922,12 +1000,16 @@ fn cfg_chan(rng: &mut Rng) -> Cfg {
     c.insert("items".into(), rng.range(1, 3));
     c.insert("cap".into(), rng.range(0, 2));
     c.insert("closer".into(), rng.pct(40) as i64);
+    c.insert("trap".into(), rng.pct(35) as i64);
     c
 }
 
 // ================================================================ T-chan-shared (handle lifecycle under threads)
 
 fn t_chan_shared(cfg: &Cfg) {
+    if cfg_get(cfg, "trap", 0) != 0 {
+        return t_chan_trap_shared(cfg);
+    }
     let np = cfg_get(cfg, "producers", 2) as usize;
     let nc = cfg_get(cfg, "consumers", 2) as usize;
     let items = cfg_get(cfg, "items", 2) as usize;
@@ -1412,6 +1494,11 @@ fn t_state(cfg: &Cfg) {
     let n = cfg_get(cfg, "threads", 2) as usize;
     let pubs = cfg_get(cfg, "pubs", 3) as u64;
     let p_budget = cfg_get(cfg, "p_budget", 0) as u64;
+    // "converge" executions: the followers leave once they have seen the last publication and
+    // the channel is closed only afterwards, so the wake-up for the last publication is the only
+    // thing that can get a parked follower going again (a lost one is a deadlock, not something
+    // the close repairs)
+    let converge = pubs > 0 && cfg_get(cfg, "converge", 0) != 0;
     let (tx, rx) = sh::generic_state_broadcast_channel::<M, u64>();
     let obs = tx.verif_observer();
     let last_pub = Arc::new(AtomicU64::new(0));
@@ -1451,11 +1538,15 @@ fn t_state(cfg: &Cfg) {
                         }
                         id = nid;
                         last = v;
+                        if converge && v == pubs {
+                            break;
+                        }
                     }
                     None => break,
                 }
             }
-            if last != last_pub.load(SeqCst) {
+            // (converge executions leave at the last publication, possibly before the publisher has noted it)
+            if !converge && last != last_pub.load(SeqCst) {
                 violation("C13", "did-not-converge", format!("follower {} ended on state {} but the last published state is {}", i, last, last_pub.load(SeqCst)));
             }
         }));
@@ -1470,6 +1561,11 @@ fn t_state(cfg: &Cfg) {
         }
     } else if pubs > 0 {
         violation("C13", "latest-not-delivered", "try_receive(StateId::new()) yields nothing although states were published".into());
+    }
+    if converge {
+        for f in fs.drain(..) {
+            f.join().unwrap();
+        }
     }
     drop(tx);
     for f in fs {
@@ -1487,6 +1583,7 @@ fn cfg_state(rng: &mut Rng) -> Cfg {
     let mut c = Cfg::new();
     base_cfg(rng, &mut c);
     c.insert("pubs".into(), rng.range(0, 3));
+    c.insert("converge".into(), rng.pct(50) as i64);
     c
 }
 
@@ -1760,7 +1857,135 @@ macro_rules! handles_scenario {
     }};
 }
 
+/// payload whose drops are counted
+struct Counted {
+    tag: u64,
+    drops: Arc<Vec<AtomicUsize>>,
+}
+impl Drop for Counted {
+    fn drop(&mut self) {
+        self.drops[self.tag as usize].fetch_add(1, SeqCst);
+    }
+}
+
+/// Shared mpmc channel with values in flight while the last handles of both sides go away
+/// concurrently: a full (or unbuffered) channel, a parked send future that outlives every
+/// handle, a try_send racing with the drop of the last receiver. Afterwards every value that was
+/// accepted and not received must already be gone (C11: the last receiver discards the buffer,
+/// immediately), and the parked send must fail and hand its value back (C08, C11).
+fn t_handles_values(cfg: &Cfg) {
+    let cap = cfg_get(cfg, "cap", 1) as usize;
+    let (tx, rx) = sh::generic_channel::<M, Counted, GrowingHeapBuf<Counted>>(cap);
+    let obs = tx.verif_observer();
+    let drops: Arc<Vec<AtomicUsize>> = Arc::new((0..8).map(|_| AtomicUsize::new(0)).collect());
+    let mk = |tag: u64| Counted { tag, drops: drops.clone() };
+    // fill the buffer
+    let mut accepted: Vec<u64> = Vec::new();
+    for i in 0..cap as u64 {
+        if tx.try_send(mk(i)).is_ok() {
+            accepted.push(i);
+        }
+    }
+    // a send that has to park (buffer full / unbuffered); the future keeps the channel alive
+    let parked_tag = 5u64;
+    let mut parked = Box::pin(tx.send(mk(parked_tag)));
+    {
+        let w = futures_task_noop();
+        let mut cx = Context::from_waker(&w);
+        if parked.as_mut().poll(&mut cx).is_ready() {
+            violation("C09", "send-into-full-channel-completed", "a send on a full / unbuffered channel without receiver completed at once".into());
+        }
+    }
+    let racing_ok = Arc::new(AtomicUsize::new(0));
+    let mut hs = Vec::new();
+    {
+        let rx = rx;
+        hs.push(thread::spawn(move || {
+            if draw(2) == 0 {
+                let extra = rx.clone();
+                thread::yield_now();
+                drop(extra);
+            }
+            drop(rx);
+        }));
+    }
+    {
+        let tx2 = tx.clone();
+        let (racing_ok, drops) = (racing_ok.clone(), drops.clone());
+        hs.push(thread::spawn(move || {
+            thread::yield_now();
+            // races with the drop of the last receiver: accepted (then it must be discarded
+            // with the buffer) or refused (then it is handed back)
+            match tx2.try_send(Counted { tag: 6, drops: drops.clone() }) {
+                Ok(()) => {
+                    racing_ok.store(1, SeqCst);
+                }
+                Err(e) => drop(e),
+            }
+            drop(tx2);
+        }));
+    }
+    {
+        let tx = tx;
+        hs.push(thread::spawn(move || {
+            thread::yield_now();
+            drop(tx);
+        }));
+    }
+    for h in hs {
+        h.join().unwrap();
+    }
+    if racing_ok.load(SeqCst) == 1 {
+        accepted.push(6);
+    }
+    // every handle is gone; only `parked` still references the channel
+    for t in &accepted {
+        let d = drops[*t as usize].load(SeqCst);
+        if d != 1 {
+            violation_multi(
+                &[("C11", "buffer-not-discarded-under-threads"), ("C08", "accepted-value-neither-received-nor-dropped")],
+                format!("value {} was accepted (send returned Ok), nobody received it, the last receiver handle is gone - and it was dropped {} time(s) instead of once (a pending send future still keeps the channel alive)", t, d),
+            );
+        }
+    }
+    // every other thread has finished: the state is final and one poll decides
+    let w = futures_task_noop();
+    let mut cx = Context::from_waker(&w);
+    match parked.as_mut().poll(&mut cx) {
+        Poll::Ready(Err(e)) => {
+            if e.0.tag != parked_tag {
+                violation("C08", "wrong-value-handed-back", format!("the parked send got value {} back", e.0.tag));
+            }
+        }
+        Poll::Ready(Ok(())) => violation_multi(
+            &[("C08", "accepted-without-receiver"), ("C11", "send-succeeded-after-close")],
+            "a parked send completed with Ok(()) after the last receiver handle (and every sender handle) was dropped: its value can never be received".into(),
+        ),
+        Poll::Pending => violation_multi(
+            &[("C08", "value-stuck-in-sender"), ("C11", "not-closed-after-last-handle")],
+            "every sender and receiver handle was dropped, but a parked send stays pending: its value is neither received nor handed back".into(),
+        ),
+    }
+    drop(parked);
+    let snap = obs.verif_snapshot(&mut |_| false);
+    if snap.scalar("is_closed") != Some(1) {
+        violation("C11", "not-closed-after-last-handle", "every handle was dropped but the channel is not closed".into());
+    }
+    queues_must_be_empty("shared mpmc channel", snap);
+}
+
+fn futures_task_noop() -> std::task::Waker {
+    struct Noop;
+    impl std::task::Wake for Noop {
+        fn wake(self: Arc<Self>) {}
+    }
+    std::task::Waker::from(Arc::new(Noop))
+}
+
 fn t_handles(cfg: &Cfg) {
+    if cfg_get(cfg, "kind", 0) == 3 {
+        return t_handles_values(cfg);
+    }
     match cfg_get(cfg, "kind", 0) {
         0 => {
             let (tx, rx) = sh::generic_channel::<M, u64, GrowingHeapBuf<u64>>(1);
@@ -1783,7 +2008,8 @@ fn t_handles(cfg: &Cfg) {
 fn cfg_handles(rng: &mut Rng) -> Cfg {
     let mut c = Cfg::new();
     base_cfg(rng, &mut c);
-    c.insert("kind".into(), rng.below(3) as i64);
+    c.insert("kind".into(), rng.below(4) as i64);
+    c.insert("cap".into(), rng.below(3) as i64);
     c
 }
 
@@ -1796,7 +2022,7 @@ static T_CHAN_SHARED: ThreadScenDef = ThreadScenDef { name: "T-chan-shared", pro
 static T_EVENT: ThreadScenDef = ThreadScenDef { name: "T-event", props: &["C14", "C01"], draw_cfg: cfg_event, body: t_event, liveness_prop: "C14" };
 static T_ONESHOT: ThreadScenDef = ThreadScenDef { name: "T-oneshot", props: &["C12", "C11", "C01"], draw_cfg: cfg_oneshot, body: t_oneshot, liveness_prop: "C12" };
 static T_STATE: ThreadScenDef = ThreadScenDef { name: "T-state", props: &["C13", "C11", "C01"], draw_cfg: cfg_state, body: t_state, liveness_prop: "C13" };
-static T_HANDLES: ThreadScenDef = ThreadScenDef { name: "T-handles", props: &["C11", "C01"], draw_cfg: cfg_handles, body: t_handles, liveness_prop: "C11" };
+static T_HANDLES: ThreadScenDef = ThreadScenDef { name: "T-handles", props: &["C11", "C08", "C01"], draw_cfg: cfg_handles, body: t_handles, liveness_prop: "C11" };
 static T_TIMER: ThreadScenDef = ThreadScenDef { name: "T-timer", props: &["C15", "C01"], draw_cfg: cfg_timer, body: t_timer, liveness_prop: "C15" };
 
 pub fn all() -> Vec<&'static ThreadScenDef> {
